@@ -132,4 +132,93 @@ Proof.
     apply chunk_length. rewrite Hd. nia.
 Qed.
 
+(* blocks of m cells, K per super-block: enumerating all p*K blocks = enumerating the K blocks
+   of every super-block *)
+Lemma blocks_regroup {B} (F : list A -> list B) m K p d :
+  length d = p * (K * m) ->
+  flat_map (fun o => F (chunk m o d)) (seq 0 (p * K))
+  = flat_map (fun i => flat_map (fun o' => F (chunk m o' (chunk (K * m) i d))) (seq 0 K)) (seq 0 p).
+Proof.
+  intros Hd.
+  set (pcs := flat_map (fun i => map (fun o' => chunk m o' (chunk (K * m) i d)) (seq 0 K)) (seq 0 p)).
+  assert (Hflat : d = flat_map (fun x => x) pcs).
+  { unfold pcs. rewrite flat_map_flat_map.
+    rewrite flat_map_ext_in with (g := fun i => chunk (K * m) i d).
+    - symmetry. apply chunks_all. exact Hd.
+    - intros i Hi. apply in_seq in Hi. rewrite flat_map_map. apply chunks_all.
+      apply chunk_length. rewrite Hd. nia. }
+  assert (Hlen : length pcs = p * K).
+  { unfold pcs. rewrite flat_map_length_const with (k := K); [now rewrite seq_length|].
+    intros i _. now rewrite map_length, seq_length. }
+  assert (Hpc : forall x, In x pcs -> length x = m).
+  { intros x Hx. unfold pcs in Hx. apply in_flat_map in Hx as [i [Hi Hx]].
+    apply in_map_iff in Hx as [o' [<- Ho]]. apply in_seq in Hi. apply in_seq in Ho.
+    apply chunk_length. rewrite chunk_length; [nia|]. rewrite Hd. nia. }
+  rewrite <- Hlen.
+  rewrite flat_map_ext_in with (g := fun o => F (nth o pcs [])).
+  2:{ intros o Ho. apply in_seq in Ho. f_equal. rewrite Hflat at 1.
+      apply (chunk_flat_map_const (fun x : list A => x)); [exact Hpc|lia]. }
+  rewrite (flat_map_seq_nth F [] pcs).
+  unfold pcs. rewrite flat_map_flat_map. apply flat_map_ext. intros i.
+  rewrite flat_map_map. reflexivity.
+Qed.
+
+(* at ANY axis position the piece is the C02 orthogonal slice with a unit-stride selector *)
+Lemma piece_is_oslice pre : forall n post c0 len d,
+  length d = prodn pre * (n * prodn post) -> c0 + len <= n ->
+  piece_at (prodn pre) (prodn post) n c0 len d
+  = oslice (pre ++ n :: post) (axis_sel pre post c0 len) d.
+Proof.
+  induction pre as [|p pre IH]; intros n post c0 len d Hd Hc.
+  - simpl in Hd. unfold axis_sel. simpl app. change (prodn []) with 1.
+    apply piece_is_oslice_axis0; [lia|exact Hc].
+  - unfold axis_sel. cbn [map app oslice full_sel rindices].
+    fold (axis_sel pre post c0 len).
+    assert (HM : prodn (pre ++ n :: post) = prodn pre * (n * prodn post))
+      by (rewrite prodn_app; reflexivity).
+    rewrite HM.
+    rewrite flat_map_ext_in with
+      (g := fun i => piece_at (prodn pre) (prodn post) n c0 len
+                       (chunk (prodn pre * (n * prodn post)) i d)).
+    2:{ intros i Hi. apply in_seq in Hi. symmetry. apply IH; [|exact Hc].
+        apply chunk_length. rewrite Hd. simpl. nia. }
+    unfold piece_at. change (prodn (p :: pre)) with (p * prodn pre).
+    apply (blocks_regroup
+             (fun b => firstn (len * prodn post) (skipn (c0 * prodn post) b))
+             (n * prodn post) (prodn pre) p d).
+    rewrite Hd. simpl. ring.
+Qed.
+
+(* hence: stacking the orthogonal unit-stride slices of an array along any axis, in order,
+   reproduces the array *)
+Lemma stack_of_slices pre n post lens d :
+  length d = prodn pre * (n * prodn post) -> sumn lens = n ->
+  concat_at (prodn pre) (prodn post)
+    (map (fun e => (snd e, oslice (pre ++ n :: post) (axis_sel pre post (fst e) (snd e)) d))
+         (extents 0 lens)) = d.
+Proof.
+  intros Hd Hs.
+  transitivity (concat_at (prodn pre) (prodn post) (split_at (prodn pre) (prodn post) n lens d));
+    [|apply stack_split; assumption].
+  unfold split_at. f_equal. apply map_ext_in. intros e He. f_equal.
+  symmetry. apply piece_is_oslice; [exact Hd|]. apply extents_bound in He. lia.
+Qed.
+
+(* slicing the stack of any files (orthogonal slice model of C02) at the extent of one of them
+   gives that file back, at any axis position *)
+Lemma slice_of_stack_oslice pre post before p after :
+  Forall (part_ok (prodn pre) (prodn post)) (before ++ p :: after) ->
+  oslice (pre ++ sumn (map fst (before ++ p :: after)) :: post)
+         (axis_sel pre post (sumn (map fst before)) (fst p))
+         (concat_at (prodn pre) (prodn post) (before ++ p :: after)) = snd p.
+Proof.
+  intros H. rewrite <- piece_is_oslice.
+  - apply slice_stack_piece. exact H.
+  - apply stack_length. exact H.
+  - rewrite map_app, <- (Nat.add_0_r (sumn (map fst before) + fst p)).
+    assert (G : forall a b, sumn (a ++ b) = sumn a + sumn b)
+      by (induction a; intros; simpl; [reflexivity|rewrite IHa; lia]).
+    rewrite G. simpl. lia.
+Qed.
+
 End P.
